@@ -28,6 +28,40 @@ func VerifC16() {
 	for i := 1; i <= N; i++ {
 		conn.AddNode(uint64(i), "addr")
 	}
+	// membership history: nodes may have left again before the dataset is created
+	// (the local node was never connected to them), and one may have come back
+	member := map[uint64]bool{}
+	for i := 1; i <= N; i++ {
+		member[uint64(i)] = true
+	}
+	if verifrt.Bound("leaves", 0) == 1 {
+		left := 0
+		for i := 2; i <= N; i++ {
+			if verifrt.Choose("node-left", 2) == 1 {
+				conn.RemoveNode(uint64(i))
+				member[uint64(i)] = false
+				left++
+			}
+		}
+		if left > 0 {
+			verifrt.Tag("after-a-node-left")
+			if verifrt.Choose("one-comes-back", 2) == 1 {
+				for i := 2; i <= N; i++ {
+					if !member[uint64(i)] {
+						conn.AddNode(uint64(i), "addr2")
+						member[uint64(i)] = true
+						break
+					}
+				}
+			}
+		}
+		N = 0
+		for _, m := range member {
+			if m {
+				N++
+			}
+		}
+	}
 	ctx, cancel := context.WithCancel(context.Background())
 	defer cancel()
 	a := &Allocator{ctx: ctx, cancelCtx: cancel, clusterConn: conn, updatesC: make(chan interface{}),
@@ -41,7 +75,7 @@ func VerifC16() {
 	for _, nodes := range res {
 		verifrt.Assert(len(nodes) == want, "exactly-min-R-N-replicas")
 		for i, id := range nodes {
-			verifrt.Assert(id >= 1 && id <= uint64(N), "replica-is-a-member")
+			verifrt.Assert(member[id], "replica-is-a-member")
 			for j := 0; j < i; j++ {
 				verifrt.Assert(nodes[j] != id, "replicas-distinct")
 			}
